@@ -39,10 +39,11 @@ func newLeaseSvc() *leaseSvc { return &leaseSvc{holder: -1, allow: -1} }
 func (s *leaseSvc) event(f string, a ...interface{}) { s.log = append(s.log, fmt.Sprintf(f, a...)) }
 
 type nodeLeaser struct {
-	svc  *leaseSvc
-	idx  int
-	host string
-	url  string
+	svc   *leaseSvc
+	idx   int
+	host  string
+	url   string
+	ticks atomic.Int64 // iterations of the node's lease-monitor loop (it asks for the cluster ID at the top of each)
 }
 
 func (l *nodeLeaser) Close() error         { return nil }
@@ -89,6 +90,7 @@ func (l *nodeLeaser) PrimaryInfo(ctx context.Context) (litefs.PrimaryInfo, error
 }
 
 func (l *nodeLeaser) ClusterID(ctx context.Context) (string, error) {
+	l.ticks.Add(1)
 	l.svc.mu.Lock()
 	defer l.svc.mu.Unlock()
 	return l.svc.clusterID, nil
@@ -217,7 +219,8 @@ func (c *netClient) Stream(ctx context.Context, primaryURL string, nodeID uint64
 	return ns, nil
 }
 
-func (c *netClient) block(b bool) {
+// block cuts the node off (or reconnects it); reports whether a live stream was closed
+func (c *netClient) block(b bool) (had bool) {
 	c.blocked.Store(b)
 	if b {
 		c.mu.Lock()
@@ -229,7 +232,9 @@ func (c *netClient) block(b bool) {
 		for _, s := range ss {
 			_ = s.Stream.Close()
 		}
+		had = len(ss) > 0
 	}
+	return had
 }
 
 // ---------------------------------------------------------------------------------------------
@@ -360,7 +365,14 @@ func (m *clusterImpl) settled() (bool, string) {
 	if !p.up || p.eng.store == nil || !p.eng.store.IsPrimary() {
 		return false, "primary-not-ready"
 	}
-	want := posMapStr(p.eng.store.PosMap())
+	// databases the primary has at TXID >= 1 (a database at the zero position has nothing to send)
+	ppm := p.eng.store.PosMap()
+	for k, v := range ppm {
+		if v.TXID == 0 {
+			delete(ppm, k)
+		}
+	}
+	want := posMapStr(ppm)
 	for i, n := range m.nodes {
 		if i == holder || !n.up || n.eng.store == nil || n.client.blocked.Load() || n.eng.exit != 0 {
 			continue
@@ -372,7 +384,13 @@ func (m *clusterImpl) settled() (bool, string) {
 		if info == nil || info.AdvertiseURL != p.leaser.url {
 			return false, fmt.Sprintf("node %d not connected", i)
 		}
-		if got := posMapStr(n.eng.store.PosMap()); got != want {
+		rpm := n.eng.store.PosMap()
+		for k := range rpm {
+			if _, ok := ppm[k]; !ok {
+				delete(rpm, k)
+			}
+		}
+		if got := posMapStr(rpm); got != want {
 			return false, fmt.Sprintf("node %d lags", i)
 		}
 	}
@@ -477,12 +495,18 @@ func (m *clusterImpl) Do(line string) string {
 		if !n.eng.store.IsPrimary() {
 			return "not-primary"
 		}
+		// the demoted node leaves monitorLeaseAsPrimary, waits DemoteDelay, recovers its
+		// databases and starts the next iteration of its lease loop: wait for that iteration
+		c0 := n.leaser.ticks.Load()
 		n.eng.store.Demote()
-		for i := 0; i < 2000 && n.eng.store.IsPrimary(); i++ {
+		for i := 0; i < 3000 && (n.eng.store.IsPrimary() || n.leaser.ticks.Load() == c0); i++ {
 			time.Sleep(time.Millisecond)
 		}
 		if n.eng.store.IsPrimary() {
 			return "still-primary"
+		}
+		if n.leaser.ticks.Load() == c0 {
+			return "no-recover"
 		}
 		return "ok"
 	case "expire":
@@ -499,7 +523,17 @@ func (m *clusterImpl) Do(line string) string {
 		if n == nil || !n.up {
 			return "bad-op"
 		}
-		n.client.block(f[2] == "off")
+		c0 := n.leaser.ticks.Load()
+		had := n.client.block(f[2] == "off")
+		if had {
+			// the replica notices the broken stream, recovers and starts its next loop iteration
+			for i := 0; i < 3000 && n.leaser.ticks.Load() == c0; i++ {
+				time.Sleep(time.Millisecond)
+			}
+			if n.leaser.ticks.Load() == c0 {
+				return "no-recover"
+			}
+		}
 		return "ok"
 	case "sync":
 		deadline := time.Now().Add(clusterSettle)
